@@ -196,7 +196,7 @@ def check_var_threading(repo: Repo, rep: Report, max_n: int = 3):
             created: List[dict] = []
             printed: List[str] = []
 
-            def make_interp(pickled, first_variable_id=0, result_variable="result"):
+            def make_interp(pickled, first_variable_id=0, result_variable="result", **_other):  # the stand-in abstracts the counter only
                 i = pickled.fields["idx"]
                 rec = Record("Interpreter", {"idx": i, "first": first_variable_id, "result": result_variable, "next_variable_id": first_variable_id + counts[i], "ran": False})
                 rec.fields["()to_ast"] = lambda _r=rec: _r.fields.__setitem__("ran", True) or Record("Module", {"__str__": f"<module {_r.fields['idx']}>"})
